@@ -62,7 +62,28 @@ fn bounds(ch: &mut Choices, case: &mut Case) -> Result<(), String> {
             ch.pick(&["00:00-48:00", "12:00-48:00", "20:00-48:00", "24:00-48:00", "22:00-26:00", "10:00-30:00", "23:59-24:01"]),
             ch.pick(&["", " off", " closed", " unknown", " open \"x\""])
         );
-        let holidays = crate::gen::ctx::gen_holidays(ch, base_year);
+        // ... or a shifted holiday selector looking across the bound: holidays in the last days
+        // of 1899 / the first days of 10000
+        let (text, holidays) = if ch.chance(35) {
+            let n = 1 + ch.draw(7);
+            let text = format!(
+                "{}PH {}{n} day{} {}",
+                ch.pick(&["", "24/7; ", "Mo-Su 10:00-12:00; "]),
+                if low { '+' } else { '-' },
+                if n > 1 { "s" } else { "" },
+                ch.pick(&["", "10:00-12:00", "off", "unknown \"x\"", "00:00-48:00"])
+            );
+            let mut ph = std::collections::BTreeSet::new();
+            let edge = if low { date_start().date() - Duration::days(1 + ch.int(0, 7)) } else { date_end().date() + Duration::days(ch.int(0, 7)) };
+            ph.insert(edge);
+            for _ in 0..ch.draw(4) {
+                ph.insert(if low { date_start().date() + Duration::days(ch.int(-9, 400)) } else { date_end().date() - Duration::days(ch.int(-9, 400)) });
+            }
+            case.label("shifted_holiday_across_a_bound_of_the_range");
+            (text.trim_end().to_string(), crate::gen::ctx::holidays_from_sets(ph, Default::default(), ch.draw(3)))
+        } else {
+            (text, crate::gen::ctx::gen_holidays(ch, base_year))
+        };
         let ast = opening_hours_syntax::parse(&text).map_err(|e| format!("constructed sentence `{text}` rejected: {e}"))?;
         let oh = OpeningHours::parse(&text)
             .map_err(|e| format!("constructed sentence `{text}` rejected: {e}"))?
